@@ -18,6 +18,8 @@ pub enum Kind {
     Silent,
     KrpcError,
     Garbage,
+    /// an address of the other family: the node's socket refuses to send to it
+    Unsendable,
 }
 
 #[derive(Clone, Debug, Serialize, Deserialize)]
@@ -49,7 +51,7 @@ pub struct Boot;
 
 fn contact() -> impl Strategy<Value = Contact> {
     (
-        prop_oneof![4 => Just(Kind::Answer), 3 => Just(Kind::Silent), 1 => Just(Kind::KrpcError), 1 => Just(Kind::Garbage)],
+        prop_oneof![8 => Just(Kind::Answer), 6 => Just(Kind::Silent), 2 => Just(Kind::KrpcError), 2 => Just(Kind::Garbage), 1 => Just(Kind::Unsendable)],
         prop_oneof![6 => Just((true, false)), 2 => Just((false, true)), 2 => Just((true, true))],
         prop_oneof![3 => Just(0u16), 3 => 1u16..400, 2 => 400u16..2400, 1 => 2400u16..2600, 1 => 2600u16..9000],
     )
@@ -101,7 +103,9 @@ impl Stage for Boot {
             let node_id: Id = [0x15; 20];
             let pinger = fam_addr(c.v6, 990, 9990);
             let busy = if c.read_only { None } else { c.busy };
-            let net = SimNet::new(Box::new(SlowSends { inner: Instant0, node, to: vec![pinger], ms: busy.map(|b| b.1 as u64).unwrap_or(0) }));
+            let unsendable: Vec<SocketAddr> = c.contacts.iter().enumerate().filter(|(_, ct)| ct.kind == Kind::Unsendable).map(|(i, _)| fam_addr(!c.v6, 100 + i as u16, 7000 + i as u16)).collect();
+            let base = move |d: &Dgram| if d.from == node && unsendable.contains(&d.to) { Fate::SendError } else { Fate::Deliver(vec![Duration::ZERO]) };
+            let net = SimNet::new(Box::new(SlowSends { inner: base, node, to: vec![pinger], ms: busy.map(|b| b.1 as u64).unwrap_or(0) }));
             // outage schedule
             let mut sched: Vec<(u64, u64)> = vec![]; // down intervals [a, b)
             let mut t = 0u64;
@@ -111,7 +115,7 @@ impl Stage for Boot {
             }
             let t_up = sched.last().map(|s| s.1).unwrap_or(0);
             let sched = Arc::new(sched);
-            let addrs: Vec<SocketAddr> = (0..c.contacts.len()).map(|i| fam_addr(c.v6, 100 + i as u16, 7000 + i as u16)).collect();
+            let addrs: Vec<SocketAddr> = (0..c.contacts.len()).map(|i| fam_addr(c.v6 != (c.contacts[i].kind == Kind::Unsendable), 100 + i as u16, 7000 + i as u16)).collect();
             let cid = |i: usize| -> Id {
                 let mut id = [0u8; 20];
                 id[0] = (i as u8).wrapping_mul(7).wrapping_add(1);
@@ -142,7 +146,7 @@ impl Stage for Boot {
                         return vec![];
                     }
                     match kind {
-                        Kind::Silent => vec![],
+                        Kind::Silent | Kind::Unsendable => vec![],
                         Kind::Answer => {
                             let (nodes, nodes6) = node_lists(&named);
                             vec![Out::after(delay, from, &resp(&m.tid, KResp { id: id.to_vec(), nodes, nodes6, ..Default::default() }))]
@@ -262,7 +266,7 @@ impl Stage for Boot {
         })
     }
     fn rule(&self) -> String {
-        "builder configurations: 0..40 contacts (or a crowd of 10..17 prompt answering nodes plus 0..3 silent ones, which yields >= 10 good nodes and hence a single bootstrap), each given as node, as router (literal ip:port) or both, each answering (and naming the silent ones and the other answering ones) / silent / answering with a KRPC error / answering garbage after 0..9 s (answers later than the 2.5 s initial-round timeout count as unresponsive for the deadline); read-only on/off; outage patterns (none, 1..3 outages of 1 ms..30 min with up-times from 1 s, flapping 4..12 times with 1..2 s up-times, one outage of 10 min..2 h) during which no contact answers; 0..12 bootstrapped() callers at times 0..50 min; optionally (serving nodes) a stranger pinging every 0.3..1.5 s with replies that take 10..70 % of the period to send, and get_state() polled every 97 ms (commands and state changes pile up behind a busy event loop). Oracle: API liveness sampled ~400 times over the run; no contacts => waiters true at once and no traffic; contacts => no waiter resolves before the first response reaches the node; plain nodes with an answering contact => every waiter true by max(call, network-up) + 660 s. Non-trivial: an outage > 60 s with >= 2 distinct waiter times, or a router/node overlap, or > 9 contacts".into()
+        "builder configurations: 0..40 contacts (or a crowd of 10..17 prompt answering nodes plus 0..3 silent ones, which yields >= 10 good nodes and hence a single bootstrap), each given as node, as router (literal ip:port) or both, each answering (and naming the silent ones and the other answering ones) / silent / unsendable (an address of the other family: send_to fails) / answering with a KRPC error / answering garbage after 0..9 s (answers later than the 2.5 s initial-round timeout count as unresponsive for the deadline); read-only on/off; outage patterns (none, 1..3 outages of 1 ms..30 min with up-times from 1 s, flapping 4..12 times with 1..2 s up-times, one outage of 10 min..2 h) during which no contact answers; 0..12 bootstrapped() callers at times 0..50 min; optionally (serving nodes) a stranger pinging every 0.3..1.5 s with replies that take 10..70 % of the period to send, and get_state() polled every 97 ms (commands and state changes pile up behind a busy event loop). Oracle: API liveness sampled ~400 times over the run; no contacts => waiters true at once and no traffic; contacts => no waiter resolves before the first response reaches the node; plain nodes with an answering contact => every waiter true by max(call, network-up) + 660 s. Non-trivial: an outage > 60 s with >= 2 distinct waiter times, or a router/node overlap, or > 9 contacts".into()
     }
     fn sample(&self, c: &Case) -> serde_json::Value {
         serde_json::json!({"contacts": c.contacts.iter().take(6).map(|x| format!("{:?}/{}{}", x.kind, if x.as_node {"N"} else {""}, if x.as_router {"R"} else {""})).collect::<Vec<_>>(), "n_contacts": c.contacts.len(), "outages": c.outages, "waiters": c.waiters})
